@@ -24,12 +24,27 @@ var c17cbStats = ev.New("C17", "c17cb")
 func c17CallbacksBody(c *run.Ctx) {
 	cfg := sim.GenConfig(c.Ch, sim.GenOpts{MaxPlayers: 4, AnteePct: 20, Modes: []int{1, 1, 0}})
 	cfg.MaxDuration = 1
+	// the options given at creation must reach the engine unchanged: the continue interval
+	// (0 or 1 s, drawn) shows as the time between the last hand's settlement and the
+	// auto-open-end notice that follows the continue step
+	cfg.Interval = c.Ch.Int("interval", 0, 1)
+	contDelay := map[bool]time.Duration{}
 	kindsOf := func(via bool) (map[string]int, string) {
 		k := map[string]int{}
 		var hooks sim.Hooks
+		var settledAt time.Time
 		hooks.Event = func(s *sim.Sim, e *sim.Event) {
 			if e.Kind != "gate" {
 				k[e.Kind]++
+			}
+			if e.Kind == "state" && e.Name == "GameSettled" {
+				settledAt = e.At
+			}
+			if e.Kind == "gate" && !settledAt.IsZero() {
+				// the continue step of a hand settled before the table's time was up
+				if _, have := contDelay[via]; !have {
+					contDelay[via] = e.At.Sub(settledAt)
+				}
 			}
 		}
 		cc := cfg
@@ -45,8 +60,12 @@ func c17CallbacksBody(c *run.Ctx) {
 		if !s.StartFirst(nil) {
 			c.Inconclusive("first set-up did not complete: %s", s.Stall)
 		}
-		time.Sleep(2100 * time.Millisecond) // the table's duration (1 s, whole-second clock) is over
+		// a first hand right away (its continue step runs at the configured interval) ...
 		h := s.PlayHand(s.PlanSignals(0))
+		if h.Outcome == "gate" && s.GateArmed != nil {
+			time.Sleep(2100 * time.Millisecond) // ... and one after the table's duration (1 s, whole-second clock) is over
+			h = s.PlayHand(s.PlanSignals(0))
+		}
 		s.Drain()
 		return k, h.Outcome
 	}
@@ -66,7 +85,18 @@ func c17CallbacksBody(c *run.Ctx) {
 			c.Failf("C17.callback-not-forwarded."+kind, "%s table, same scenario: the bare engine delivered %d %q callbacks (hand ended: %s), the table created through the Manager none (hand ended: %s); engine %v, manager %v", cfg.Mode, eng[kind], kind, outE, outM, eng, mgr)
 		}
 	}
-	labels := []string{"callbacks_" + string(cfg.Mode)}
+	de, okE := contDelay[false]
+	dm, okM := contDelay[true]
+	if okE && okM && !sim.Starved() {
+		diff := dm - de
+		if diff < 0 {
+			diff = -diff
+		}
+		if diff > 700*time.Millisecond {
+			c.Failf("C17.create-options-not-forwarded.continue-interval", "%s table created with GameContinueInterval %d: the next hand was set up %v after the settlement on the bare engine and after %v on the table created through the Manager", cfg.Mode, cfg.Interval, de, dm)
+		}
+	}
+	labels := []string{"callbacks_" + string(cfg.Mode), fmt.Sprintf("continue_interval_%d", cfg.Interval)}
 	for _, kind := range names {
 		labels = append(labels, "callback_"+kind)
 	}
